@@ -506,6 +506,33 @@ def r01_12_maybe_value(ctx):
     ctx.require_min("R01.12", 20)
 
 
+def r01_13_is_terminal(ctx):
+    from rules.graphcommon import GraphWorld
+    from sa.minieval import Raised
+
+    ctx.rule("R01.13", "isTerminal is a property of the block's content: a block holding return / retsub / err at any position (alone, last, or followed by comment ops or unreachable code) is terminal whatever its successors; a block without one is terminal exactly when it has no successor")
+    tb = ctx.model.find_class("TealBlock", "pyteal.ir.tealblock")
+    ctx.analysed(tb.methods["isTerminal"].fq)
+    cases = []
+    for term in ("return_", "retsub", "err"):
+        for before in ([], ["int 1"]):
+            for after in ([], ["comment note"], ["comment a", "comment b"], ["int 2", "pop"]):
+                cases.append((before + [term] + after, True))
+    cases += [(["int 1", "pop"], False), ([], False), (["comment only"], False), (["int 1", "assert_"], False)]
+    for ops, has_term in cases:
+        for succ in (0, 1, 2):
+            W = GraphWorld(ctx)
+            spec = {"b": (ops, ["x", "y"][:succ]), "x": (["int 1", "return_"], []), "y": (["int 0", "return_"], [])}
+            blocks = W.build(spec)
+            want = has_term or succ == 0
+            try:
+                got = blocks["b"].methods["isTerminal"]()
+            except Raised as r:
+                got = f"raises {r.exc_text[:40]}"
+            ctx.check(got is want, "R01.13", f"isTerminal[{'; '.join(ops) or 'empty'},{succ} successor(s)]", f"isTerminal() is {got}; the block {'holds a terminator' if has_term else 'holds no terminator'} and has {succ} successor(s), so it must be {want}", tb.methods["isTerminal"].where, fact={"terminal": want})
+    ctx.require_min("R01.13", 80)
+
+
 GRAPHS = {
     "chain of three": {"a": (["int 1"], ["b"]), "b": (["pop"], ["c"]), "c": (["int 1", "return_"], [])},
     "empty start then code": {"s": ([], ["a"]), "a": (["int 1", "return_"], [])},
@@ -557,6 +584,7 @@ def run(ctx):
     r01_5_sort(ctx)
     r01_6_root_rebinding(ctx)
     r01_6e_normalize(ctx)
+    r01_13_is_terminal(ctx)
     r01_7_replace_total(ctx)
     r01_8_api_ops(ctx)
     r01_10_routine_epilogue(ctx)
